@@ -604,6 +604,133 @@ def c17_search(ctx, failing, corr, broken):
     return out
 
 
+# ---------------------------------------------------------------------------------------------------
+# C02
+# ---------------------------------------------------------------------------------------------------
+
+def c02_route(ctx, e, inst):
+    """(unit type short name, from, to) of the scalar conversion an entry point must apply, or None."""
+    m = e['meta']
+    k = m['kind']
+    tables = {u['name']: u for u in ctx.tables['units']}
+    if m['cls'].startswith('unit:'):
+        short = m['cls'][5:]
+        std = tables['Unit::' + short]['standard']
+        if k in ('convert-copy', 'convert-inplace'):
+            return short, inst['params'][0], inst['params'][1], False
+        if k == 'convert-static':
+            ens = [x[0] for x in tables['Unit::' + short]['enumerators']]
+            return short, ens.index(m['from']), ens.index(m['to']), True
+        return None
+    if not m.get('unit') or not m.get('enum'):
+        return None
+    short = m['enum'].split('::')[1]
+    t = tables[m['enum']]
+    ens = [x[0] for x in t['enumerators']]
+    u, std = ens.index(m['unit']), t['standard']
+    name = m.get('name')
+    if k == 'ctor':
+        return short, u, std, False
+    if name == 'Value':
+        return short, std, u, False
+    if name == 'StaticValue':
+        return short, std, u, True
+    if name == 'Create':
+        return short, u, std, True
+    return None
+
+
+def ulp_distance(a, b, fmt):
+    """|a-b| in units of the last place of the larger magnitude (canonical strings)."""
+    if a == b:
+        return 0
+    if a in ('nan', 'inf', '-inf') or b in ('nan', 'inf', '-inf'):
+        return 10 ** 9
+    fa, fb = co.frac_of_canon(a), co.frac_of_canon(b)
+    big = max(abs(fa), abs(fb))
+    if big == 0:
+        return 0
+    p, emax = co.FMT[fmt]
+    e = big.numerator.bit_length() - big.denominator.bit_length()
+    if Fraction(2) ** e > big:
+        e -= 1
+    e = max(e, 1 - emax)
+    return abs(fa - fb) / (Fraction(2) ** (e - (p - 1)))
+
+
+def c02_search(ctx, failing, corr, broken):
+    """C02's own statement on the real code: each entry point's output component must agree (to one
+    ulp) with the plain scalar Convert of the same component, and copying forms leave their argument."""
+    targets, rng = _targets(ctx, failing, corr, broken,
+                            lambda e: e['meta']['cls'].startswith('unit:') or e['meta'].get('unit'),
+                            limit=2500, seed_off=2)
+    by_id = ctx.by_id
+    reqs, info = [], []
+    for (e, fmt) in targets:
+        insts = e['instances']
+        for inst in ([rng.choice(insts)] if len(insts) > 1 else insts):
+            v = inst['fmts'].get(str(fmt))
+            route = c02_route(ctx, e, inst)
+            if v is None or route is None:
+                continue
+            short, f, t, static = route
+            conv = by_id.get('unit::Convert<%s>(num)' % short)
+            if conv is None:
+                continue
+            n = v['n_in']
+            vals = co.gen_inputs(rng, [fmt] * n, n)
+            reqs.append((e['index'], fmt, [co.hex_of(*x) for x in vals], inst['params']))
+            base = len(reqs)
+            for x in vals:
+                reqs.append((conv['index'], fmt, [co.hex_of(*x)], [f, t]))
+            info.append((e, fmt, inst, vals, len(reqs) - n - 1, route))
+    if not reqs:
+        return []
+    res, err, rc = ctx.run_native(reqs)
+    out = []
+    for (e, fmt, inst, vals, pos, route) in info:
+        r = res[pos]
+        if r is None or r.get('error'):
+            continue
+        outs = num_outs(r)
+        n = len(vals)
+        for i in range(min(n, len(outs))):
+            s = res[pos + 1 + i]
+            if s is None or s.get('error'):
+                continue
+            want = num_outs(s)[0][1]
+            got = outs[i][1]
+            d = ulp_distance(got, want, fmt)
+            if d > 1:
+                out.append({'kind': 'c02-agree', 'entry': e['id'], 'fmt': fmt, 'index': e['index'],
+                            'params': inst['params'], 'inputs': [co.hex_of(*x) for x in vals], 'component': i,
+                            'entry_output': got, 'scalar_convert_output': want,
+                            'scalar_convert': 'unit::Convert<%s>(num)@%d,%d' % (route[0], route[1], route[2]),
+                            'what': '%s component %d gives %s but the scalar Convert of that component gives %s' % (
+                                e['id'], i, got, want)})
+                break
+        if e['meta']['kind'] in ('convert-copy', 'convert-static') and len(outs) >= 2 * n:
+            for i in range(n):
+                sgn, m, ex = vals[i]
+                if outs[n + i][1] != co.canon(_val(vals[i]), neg_zero=(m == 0 and sgn)):
+                    out.append({'kind': 'c02-copy-modified', 'entry': e['id'], 'fmt': fmt, 'index': e['index'],
+                                'params': inst['params'], 'inputs': [co.hex_of(*x) for x in vals],
+                                'what': '%s modified its argument: component %d is now %s' % (e['id'], i, outs[n + i][1])})
+                    break
+        if len(out) >= 5:
+            break
+    return out
+
+
+def c02_correspond(ctx):
+    rng = random.Random(ctx.seed + 2)
+    sel = [e for e in ctx.model if e['meta']['cls'].startswith('unit:') or e['meta'].get('unit')]
+    if ctx.tier == 'quick':
+        rng.shuffle(sel)
+        sel = sel[:2500]
+    return co.correspond(ctx.cache, LEAN, sel, ctx.seed + 2, per_entry=1 if ctx.tier == 'quick' else 6)
+
+
 def quantity_corr(pred, seed_off, per_quick=2, per_thorough=30):
     def f(ctx):
         sel = [e for e in ctx.model if not e['meta']['cls'].startswith(('unit:', 'model:')) and pred(e)]
@@ -613,6 +740,16 @@ def quantity_corr(pred, seed_off, per_quick=2, per_thorough=30):
 
 
 SPECS = {
+    'C02': {
+        'id': 'C02', 'level': 'proof',
+        'lean_targets': ['PhQVerif.Audit.C02'],
+        'checkers': [('C02unit', 'unitEntries'), ('C02class', 'quantityEntries')],
+        'correspond': c02_correspond,
+        'search': c02_search,
+        'assumptions': ['container forms are traced for a few unit pairs per unit type (the code is one template '
+                        'per container, generic in the unit), the scalar Convert for all ordered pairs in double',
+                        'std::vector form traced at length 4'],
+    },
     'C16': {
         'id': 'C16', 'level': 'proof',
         'lean_targets': ['PhQVerif.Audit.C16'],
